@@ -32,6 +32,7 @@ def run(ctx: Ctx):
     ctx.attempt(drivers, ctx)
     ctx.attempt(step_guard, ctx)
     ctx.attempt(no_globals, ctx)
+    ctx.attempt(generator_state, ctx)
     ctx.attempt(controller_order, ctx)
     ctx.attempt(wiring, ctx)
     ctx.attempt(pending_reports, ctx)
@@ -204,6 +205,36 @@ def no_globals(ctx: Ctx):
                               why="hidden per-call state: stepping would depend on how often it was called before", construct=f"{fn.qualname}:global")
     if n == 0:
         ctx.ok("D4", "IM.global", "no global/nonlocal statement in nrel/hive", file="nrel/hive", line=0, function="<package>")
+
+
+RNG_STATE = {"random.setstate", "random.seed", "numpy.random.set_state", "np.random.set_state", "numpy.random.seed", "np.random.seed",
+             "random.getstate", "numpy.random.get_state", "np.random.get_state"}
+
+
+def generator_state(ctx: Ctx):
+    """'a steps then b steps == a+b steps == the batch runner': the process's random generators are part of what a step continues from
+    (seeded once, by load_scenario / run). The stepping entry points (crank, the runner's run / step) therefore never save, restore or
+    re-seed them: a crank() that rewinds the generators makes every call repeat the draws of the one before."""
+    from ..loader import fq_dotted, dotted
+    repo = ctx.repo
+    roots = [repo.func(COSIM, "crank"), repo.func(LSR, "LocalSimulationRunner.run"), repo.func(LSR, "LocalSimulationRunner.step")]
+    reach = rules.reachable_funcs(repo, roots)
+    if reach is None:
+        raise AnalysisError("generator_state: reachability bound exceeded")
+    # new helpers of the entry modules (context managers are entered through `with`, which the call graph sees as a call)
+    n = 0
+    for f in sorted(reach, key=lambda f: (f.relpath, f.qualname)):
+        for c in ast.walk(f.node):
+            if isinstance(c, ast.Call):
+                d = fq_dotted(f.module, c.func) or dotted(c.func) or ""
+                if d in RNG_STATE:
+                    n += 1
+                    ctx.violation("D4", "IM.generator-state", f"{f.qualname}: {d}() on the stepping path", f, c,
+                                  why=f"reached from crank() / run() / step(): the generators' state is saved, restored or re-seeded while stepping, so the draws of a call depend on where the "
+                                      f"call boundaries fall -- crank(a); crank(b) no longer equals crank(a+b) or the batch runner",
+                                  construct=f"{f.qualname}:generator-state:{d}")
+    ctx.ok("D4", "IM.generator-state", f"{len(reach)} functions reachable from crank / run / step: none saves, restores or re-seeds the random generators", file=COSIM, line=0, function="crank")
+    ctx.require(len(reach) >= 100, f"generator_state: only {len(reach)} functions reachable from the stepping entry points")
 
 
 def controller_order(ctx: Ctx):
